@@ -4,6 +4,7 @@ CONSTANTS
   Variants = {1, 2}
   AllowRename = FALSE
   AllowBatchRace = FALSE
+  Fixed = FALSE
 INIT IInit
 NEXT INext
 INVARIANT ExactAfterDrain
